@@ -445,7 +445,7 @@ def judge(ctx, root, argv, sources, references, tree, schema, use_binary):
             os.unlink(os.path.join(log, f))
         gen = os.path.join(os.path.dirname(root), "gen-ok-c17")
         if not os.path.lexists(gen):
-            os.symlink(ctx.paths["fakegen"], gen)
+            core.link_tool(ctx.paths["fakegen"], gen)
         with open(os.path.join(log, "gen-ok-c17.reply"), "wb") as f:
             f.write(wire.enc_reply([]))
         res = ctx.run_slicec(argv[1:] + ["-G", gen], cwd=root, env={"FAKEGEN_LOG": log})
